@@ -18,9 +18,14 @@ pub open spec fn param_ranges(uses: Map<PV, Seq<UseV>>, file: PV, line: usize, n
 pub ghost struct OutCallV { pub to: ItemV, pub from_ranges: Seq<Range> }
 pub open spec fn out_call_v(c: CallHierarchyOutgoingCall) -> OutCallV { OutCallV { to: item_v(c.to), from_ranges: c.from_ranges@ } }
 pub open spec fn out_calls_v(s: Seq<CallHierarchyOutgoingCall>) -> Seq<OutCallV> { s.map_values(|c: CallHierarchyOutgoingCall| out_call_v(c)) }
-/// the definition a dependency name `dep` of a fixture in file p is taken to mean: RESOLVER =
-/// resolve_fixture_for_file (op_resolve_ff) — NOT find_fixture_definition / op_resolve
-pub open spec fn dep_target(v: NavV, p: PV, dep: Seq<char>) -> Option<DefV> { op_resolve_ff(bucket(v.defs, dep), p, canon_pv(p)) }
+/// the definition a dependency name `dep` of fixture d (in file p) is taken to mean.  RESOLVER (since the repair of
+/// F-05d): a SELF-NAMED dependency (`def foo(foo)`) goes through find_closest_definition_excluding = op_resolve with
+/// the filter "not d" (what go-to-definition does for that parameter); every OTHER dependency through
+/// resolve_fixture_for_file (op_resolve_ff) -- NOT find_fixture_definition / op_resolve (F-05b remains for those)
+pub open spec fn dep_target(v: NavV, p: PV, d: DefV, dep: Seq<char>) -> Option<DefV> {
+    if dep == d.name { op_resolve(bucket(v.defs, dep), p, (v.provf)(dep), fs_excl(Some(d))) }
+    else { op_resolve_ff(bucket(v.defs, dep), p, canon_pv(p)) }
+}
 /// the outgoing call for dependency `dep` of definition d (in file p) resolved to dd: the item is built like the
 /// prepared item (def_item); from_ranges = the recorded spans of the parameter on d's definition line, else (fallback:
 /// no usage of that name recorded on that line) dd's OWN name span
@@ -34,7 +39,7 @@ pub open spec fn out_calls(v: NavV, p: PV, d: DefV, deps: Seq<Seq<char>>) -> Seq
     if deps.len() == 0 { Seq::empty() } else {
         let rest = out_calls(v, p, d, deps.drop_last());
         let dep = deps.last();
-        match dep_target(v, p, dep) {
+        match dep_target(v, p, d, dep) {
             None => rest,                                   // unresolvable dependency: no call
             Some(dd) => match path_uri(v.uc, dd.file) {
                 None => rest,                               // no URI: dropped
@@ -43,19 +48,19 @@ pub open spec fn out_calls(v: NavV, p: PV, d: DefV, deps: Seq<Seq<char>>) -> Seq
         }
     }
 }
-pub open spec fn op_handle_outgoing(v: NavV, name: Seq<char>, uri: Uri) -> Option<Seq<OutCallV>> {
-    match item_def(v, name, uri) {
+pub open spec fn op_handle_outgoing(v: NavV, name: Seq<char>, uri: Uri, sel_line: u32) -> Option<Seq<OutCallV>> {
+    match item_def(v, name, uri, sel_line) {
         None => None,
         Some(d) => Some(out_calls(v, uri_path(uri)->0, d, d.dependencies)),
     }
 }
 /// no-truncation hypothesis for the lines of the resolved dependencies (and of d itself)
-pub open spec fn deps_fit(v: NavV, p: PV, deps: Seq<Seq<char>>) -> bool {
-    forall|i: int| 0 <= i < deps.len() ==> def_fits(dep_target(v, p, #[trigger] deps[i]))
+pub open spec fn deps_fit(v: NavV, p: PV, d: DefV, deps: Seq<Seq<char>>) -> bool {
+    forall|i: int| 0 <= i < deps.len() ==> def_fits(dep_target(v, p, d, #[trigger] deps[i]))
 }
-pub open spec fn out_fits(v: NavV, name: Seq<char>, uri: Uri) -> bool {
-    item_def(v, name, uri) is Some ==> line_fits((item_def(v, name, uri)->0).line)
-        && deps_fit(v, uri_path(uri)->0, (item_def(v, name, uri)->0).dependencies)
+pub open spec fn out_fits(v: NavV, name: Seq<char>, uri: Uri, sel_line: u32) -> bool {
+    item_def(v, name, uri, sel_line) is Some ==> line_fits((item_def(v, name, uri, sel_line)->0).line)
+        && deps_fit(v, uri_path(uri)->0, item_def(v, name, uri, sel_line)->0, (item_def(v, name, uri, sel_line)->0).dependencies)
 }
 pub open spec fn opt_out_calls_view(r: jsonrpc::Result<Option<Vec<CallHierarchyOutgoingCall>>>) -> Option<Seq<OutCallV>> {
     match r { Ok(Some(v)) => Some(out_calls_v(v@)), _ => None }
